@@ -406,9 +406,10 @@ def check_quit(program, rep):
             bad = bad or (ex.node, f'quit_loop raises Quit without delivering '
                           'on_quit although a world was given')
         else:
-            # allowed only when no world could be determined
+            # allowed only when no world could be determined: none given
+            # and the default loop has none
             if not any(t.endswith('is None') and v is True
-                       for t, v in conds.items()):
+                       and 'current_world' in t for t, v in conds.items()):
                 bad = bad or (ex.node, 'quit_loop raises Quit without '
                               'delivering on_quit to the target world')
     rep.floor('C14.quit', 'paths of quit_loop dispatching on_quit', n_disp, 1)
